@@ -497,7 +497,7 @@ META = {
                   "Richardson finite differences) and the Legendre-Fenchel relations; held on the inputs generated, not a proof.",
     "level_note": "float64 only; Harsch2021 not evaluated at |B_Gamma| < 1e-3 (energy not differentiable at 0); a discrepancy is a "
                   "violation only when both derivative oracles reject it; relative floor 1e-9 (complex step) / 1e-6 (finite differences).",
-    "technique": "runtime return-value monitors with complex-step and finite-difference derivative oracles and Legendre-duality identities",
+    "technique": "runtime return-value monitors with complex-step and finite-difference derivative oracles and Legendre-duality identities + call-history purity monitor with scribbling",
 }
 
 
